@@ -23,6 +23,7 @@ def replay_exe(ctx):
 
 def run_replay(ctx, *args):
     r = sh([replay_exe(ctx), *[str(a) for a in args]], env=dict(os.environ, ASAN_OPTIONS='detect_leaks=0:abort_on_error=0', UBSAN_OPTIONS='halt_on_error=1:print_stacktrace=0'))
+    if r.returncode == 127 or 'error while loading shared libraries' in r.stdout: raise Broken('replay program could not be started (library being rebuilt?): ' + r.stdout[-200:])
     return r.returncode, r.stdout
 
 def _short(out, n=360):
@@ -39,6 +40,7 @@ def replay(ctx, cx, h=None):
     if kind == 'kernel': return replay_kernel(ctx, c, h)
     if kind == 'hdr': return replay_hdr(ctx, c, h)
     if kind == 'data' or 'cx_data' in c: return replay_data(ctx, c, h)
+    if kind == 'mtype' or 'cx_mt' in c or 'cx_garb' in c: return replay_mtype(ctx, c, h)
     return replay_msg(ctx, c, h)
 
 def replay_kernel(ctx, c, h):
@@ -54,7 +56,7 @@ def replay_kernel(ctx, c, h):
     rc, out = r.returncode, r.stdout
     hit = sanitizer_hit(rc, out) or rc == 5
     what = 'extract%s(cap %d/%d) on %d bytes: %s' % ('_fixed_width' if mode else '_element', capt, capv, n, _short(out))
-    if hit and capt == 24:
+    if sanitizer_hit(rc, out) and capt == 24:
         # the same shape at the real size: digits/value stretched by 2048/24, fed to Message::factory
         nd = int(c.get('cx_nd', 0)); vl = int(c.get('cx_vlen', 0)); f = 2048 / 24.0
         tag = b'1' * max(1, int(nd * f + 1)) if nd >= 24 else b'58'
@@ -200,7 +202,42 @@ def replay_perm(ctx, c, msg, shown, accepted, fields, unk, enc, res):
     if bad or (enc is not None and sum(len(u) for u in unk.values()) != sum(len(b'%d=%s\x01' % (t, v)) for t, v in ut)):
         return True, 'pass-through not byte-for-byte once: %r re-encodes to %r (unknown strings %s)' % (shown, (enc or b'').replace(b'\x01', b'|').decode('latin1'), {k: v.replace(b'\x01', b'|').decode('latin1') for k, v in unk.items()})
     return False, 'native run agrees (permissive): %r' % shown
-def add_c03_objects(ctx, defs): pass
+
+def replay_mtype(ctx, c, h):
+    """C03 object counterexamples (MsgType confusion, group-element loop): the message bytes through the real Message::factory
+    (FIX42UTEST classes, ASan/UBSan, 20 s cap and 1 GB address-space cap: a hang or unbounded allocation is a violation of totality)"""
+    msg = cx_message(c)
+    if len(msg) < 20: return False, 'no message in counterexample'
+    shown = msg.replace(b'\x01', b'|').decode('latin1')
+    import subprocess
+    try:
+        r = subprocess.run([replay_exe(ctx), 'factory', msg.hex(), '1', '0', '0'], stdout=subprocess.PIPE, stderr=subprocess.STDOUT, text=True, timeout=20,
+                           env=dict(os.environ, ASAN_OPTIONS='detect_leaks=0:abort_on_error=0:hard_rss_limit_mb=1500:allocator_may_return_null=0', UBSAN_OPTIONS='halt_on_error=1:print_stacktrace=0'))
+    except subprocess.TimeoutExpired:
+        return True, 'Message::factory does not return within 20 s on %r (%d bytes)' % (shown, len(msg))
+    rc, out = r.returncode, r.stdout
+    if rc == 127 or 'error while loading shared libraries' in out: raise Broken('replay program could not be started (library being rebuilt?): ' + out[-200:])
+    if sanitizer_hit(rc, out) or 'rss limit' in out.lower() or 'out of memory' in out.lower(): return True, 'sanitizer report on %r: %s' % (shown, _short(out))
+    if rc not in (0, 3): return True, 'Message::factory on %r ends with status %d: %s' % (shown, rc, _short(out))
+    return False, 'native run of %r is clean: %s' % (shown, _short(out))
+
+FUN_C03OBJ = ['FIX8::Message::factory', 'FIX8::MessageBase::extract_header', 'FIX8::GeneratedTable<const char*, BaseMsgEntry>::find_ptr', 'FIX8::Message::decode', 'FIX8::MessageBase::decode']
+def add_c03_objects(ctx, defs):
+    """object part of C03 over the token-level decoder world: (a) which message-table entry Message::factory instantiates for MsgType
+    A / header / trailer / unknown, (b) termination of decode_group's element loop on an unparsable remainder"""
+    world(ctx)
+    common = dict(flags=['-I', VERIF + '/shims'], object_bits=13, timeout=600, mem_gb=12)
+    hm = ctx.add(Harness('C03_mtype', VERIF + '/harness/C03_mtype.c', defines=list(defs) + WORLD_DEFS + ['VF_MAXCOPY=%d' % FLD], unwind=14, unwindset=us_decode(5), functions=FUN_C03OBJ,
+                    stubs=STUBS_DECODE + [STUB_TOK, STUB_NOGRP], bounds='messages 8=FIX.4.2|9=12|35=<MsgType>|10=000| with MsgType in {A, header, trailer (all keys of the generated message table), B (not a key)}; checksum verification off',
+                    desc='the factory instantiates only real message entries of the message table; unknown MsgType -> InvalidMessage', **common))
+    # GeneratedTable::find_ptr is `res ? &res->_value : nullptr`; clang -O1 computes the member address before the select, so for a key that
+    # is not in the table the IR forms null + 0 without using it: CBMC's pointer-overflow check flags that compiler-introduced address
+    # computation (no dereference; the dereference/bounds checks stay on)
+    hm.drop_checks = ('--pointer-overflow-check',)
+    ctx.add(Harness('C03_gloop', VERIF + '/harness/C03_gloop.c', defines=list(defs) + WORLD_DEFS + ['VF_MAXCOPY=%d' % FLD], unwind=14, unwindset=us_decode(12), functions=FUN_DECODE,
+                    stubs=STUBS_DECODE + [STUB_TOK.replace(':= token oracle', ':= token oracle (returns 0 at the malformed remainder, as the real tokenizer does: C03_ext_* grammar clause)')],
+                    bounds='Logon message ...|98=0|108=3|384=n|372=D|[385=S|]<remainder>10=000| with count n in 1..2, one group element of one or two fields and either no remainder or 4 arbitrary bytes that are not a token (first byte neither a digit nor the equals sign; or 1..3 digits followed by a byte that is neither); element pool of 3',
+                    desc='decode_group terminates: it creates no more elements than the input can hold; the message is accepted or a fix8 exception is raised', **common))
 
 # ------------------------------------------------------------------ the token-level decoder world
 WORLD_ROOTS = ['vf_ctx_setup', 'vf_msg_entry_fn', 'vf_ctx_mk_hdr', 'vf_ctx_mk_trl', 'vf_tab_hdr', 'vf_tab_body', 'vf_tab_grp', 'vf_tab_trl', 'vf_mk_header', 'vf_mk_trailer',
@@ -222,22 +259,35 @@ STUBS_DECODE = [
     'constructors of the f8Exception family and f8Exception::format<> := no text formatting; the thrown typeinfo is observed',
     'basic_ostringstream / operator<< (reason text of MissingMandatoryField) := empty shell (models/codec.c); std::string, operator new: models/cxx.c',
     'SingleLogger::is_loggable := false (logging off)']
-STUB_TOK = 'MessageBase::extract_element(const char*, unsigned, char*, char*) := token oracle over the harness token table: returns the token that starts at the given position (tag text, value text, width); this is the functional contract the C03_ext_* kernel harnesses prove for the real tokenizer on every byte string'
+STUB_TOK = 'MessageBase::extract_element(const char*, unsigned, char*, char*, unsigned tag_sz, unsigned val_sz) := token oracle over the harness token table: returns the token that starts at the given position (tag text, value text, width), 0 when it does not fit the given capacities; this is the functional contract the C03_ext_* kernel harnesses prove for the real tokenizer on every byte string'
 STUB_NOGRP = 'MessageBase::decode_group := assert(false) (harnesses without a group-count token: reaching it fails the check)'
 
+SYMS = dict(dgroup=M_DGROUP, ext='_ZN4FIX811MessageBase15extract_elementEPKcjPcS3_jj', fw='_ZN4FIX811MessageBase27extract_element_fixed_widthEPKcjjPcS3_j')
+WORLD_DEFS = []
 def world(ctx):
     """build the four translations of the decoder world (tokenizer real/cut x decode_group real/cut) once per run"""
     if getattr(ctx, '_codec_world', None): return ctx._codec_world
     ext = ['-DFIX8_MAX_FLD_LENGTH=%d' % FLD]
     shim = ctx.build_ir('codec_world.cpp', 'cut', extra=ext); msg = ctx.build_ir(REPO + '/runtime/message.cpp', 'cut', extra=ext)
     ll = ctx.link_ir([shim, msg], 'codecworld')
+    # the mangled names of the functions that are cut or whose loops get bounds are read from the IR (their signatures changed with the
+    # capacity repair and may change with a group-count repair); the harness bodies of the cuts adapt through WORLD_DEFS
+    txt = open(ll).read()
+    def sym(rx, dflt):
+        m = _re.search(r'^define [^@\n]*@(%s)\(' % rx, txt, _re.M); return m.group(1) if m else dflt
+    SYMS['dgroup'] = sym(r'_ZN4FIX811MessageBase12decode_groupE\w+', M_DGROUP)
+    SYMS['ext'] = sym(r'_ZN4FIX811MessageBase15extract_elementEPKcjPcS3_j*', SYMS['ext'])
+    SYMS['fw'] = sym(r'_ZN4FIX811MessageBase27extract_element_fixed_widthEPKcjjPcS3_j*', SYMS['fw'])
+    del WORLD_DEFS[:]
+    if 'BaseField' in SYMS['dgroup']: WORLD_DEFS.append('DGROUP_CNTFLD')        # decode_group(grpbase, fnum, count field, from, offset, ignore)
+    if not SYMS['ext'].endswith('jj'): WORLD_DEFS.append('EXT_NOCAP')           # extract_element without capacity parameters (before repo 4884c13)
     common = dict(stubfiles=['codec_world.stubs', 'common.stubs'], models=['cxx.c', 'stubs.c', 'codec.c'], provided=['vf_rec_create', 'vf_next_element'])
     info = {}
     info['world.c'] = ctx.translate(ll, WORLD_ROOTS, 'world.c', **common)
-    info['world_ng.c'] = ctx.translate(ll, WORLD_ROOTS, 'world_ng.c', stubs={M_DGROUP: 'st_no_group'}, **common)
+    info['world_ng.c'] = ctx.translate(ll, WORLD_ROOTS, 'world_ng.c', stubs={SYMS['dgroup']: 'st_no_group'}, **common)
     tk = dict(common, stubfiles=['codec_world.stubs', 'codec_tok.stubs', 'common.stubs'])
     info['world_tk.c'] = ctx.translate(ll, WORLD_ROOTS, 'world_tk.c', **tk)
-    info['world_tkng.c'] = ctx.translate(ll, WORLD_ROOTS, 'world_tkng.c', stubs={M_DGROUP: 'st_no_group'}, **tk)
+    info['world_tkng.c'] = ctx.translate(ll, WORLD_ROOTS, 'world_tkng.c', stubs={SYMS['dgroup']: 'st_no_group'}, **tk)
     info['world_enc.c'] = ctx.translate(ll, WORLD_ROOTS, 'world_enc.c', stubs={'_ZNK4FIX811MessageBase6encodeEPc': 'st_mb_encode'}, **common)
     tabcheck(ctx)
     ctx._codec_world = info
@@ -256,10 +306,10 @@ def us_decode(ntok, harness_loops=('main', 'run'), extra=(), maxcopy=None):
     us = ['%s.%d:%d' % (f, i, 170) for f in harness_loops for i in range(0, 14)]
     us += ['_ZNK4FIX811FieldTraits12find_missingENS_10FieldTrait10TraitTypesE.0:29', 'in_tab.0:29', 'vf_ti_match.0:60', 'vf_copy.0:%d' % ((maxcopy or FLD) + 2), 'x_strlen.0:64',
            M_DECODE + '.0:3', M_DECODE + '.1:%d' % (ntok + 2), M_DECODE + '.2:%d' % (ntok + 2),
-           '_ZN4FIX811MessageBase27extract_element_fixed_widthEPKcjjPcS3_.0:%d' % FLD, '_ZN4FIX811MessageBase15extract_elementEPKcjPcS3_.0:%d' % (FLD + 1),
-           'TK_render.0:%d' % (ntok + 3), 'TK_render.1:%d' % (ntok + 3), 'st_extract_element.0:%d' % (ntok + 3), 'st_extract_element.1:%d' % (ntok + 3), 'st_extract_element.2:%d' % (ntok + 3),
+           SYMS['fw'] + '.0:%d' % FLD, SYMS['ext'] + '.0:%d' % (FLD + 1),
+           'TK_render.0:%d' % max(ntok + 3, 13), 'TK_render.1:%d' % max(ntok + 3, 13), 'st_extract_element.0:%d' % max(ntok + 3, 10), 'st_extract_element.1:%d' % max(ntok + 3, 10), 'st_extract_element.2:%d' % max(ntok + 3, 10),
            '_ZN4FIX89fast_atoiItEET_PKcc.0:7', '_ZN4FIX89fast_atoiIjEET_PKcc.0:9', '_ZN4FIX89fast_atoiIiEET_PKcc.0:9']
-    us += ['%s.%d:29' % (M_FILL, i) for i in range(4)] + ['%s.%d:6' % (M_DGROUP, i) for i in range(6)]
+    us += ['%s.%d:29' % (M_FILL, i) for i in range(4)] + ['%s.%d:6' % (SYMS['dgroup'], i) for i in range(6)]
     return us + list(extra)
 
 def tok_harness(ctx, name, *, perm=0, nx=3, pres=0, drop=0, ng=0, gpres=0, defs=(), tokcut=True, tier='quick', extra_defs=(), timeout=900, cfile='C04_tok.c', pid='C04', object_bits=None):
@@ -268,7 +318,7 @@ def tok_harness(ctx, name, *, perm=0, nx=3, pres=0, drop=0, ng=0, gpres=0, defs=
     nslots = bin(pres).count('1') + bin(gpres).count('1')
     ntok = 3 + 6 + nx + ng + 1
     mc = next((int(x.split('=')[1]) for x in extra_defs if x.startswith('VF_MAXCOPY=')), FLD)
-    d = list(defs) + ['NX=%d' % nx, 'PRES=%d' % pres, 'DROP=%d' % drop, 'PERM=%d' % perm] + ([] if mc != FLD else ['VF_MAXCOPY=%d' % FLD]) + list(extra_defs)
+    d = list(defs) + WORLD_DEFS + ['NX=%d' % nx, 'PRES=%d' % pres, 'DROP=%d' % drop, 'PERM=%d' % perm] + ([] if mc != FLD else ['VF_MAXCOPY=%d' % FLD]) + list(extra_defs)
     if ng: d += ['NG=%d' % ng, 'GPRES=%d' % gpres]
     else: d += ['NOGROUP']
     if not tokcut: d += ['NO_TOKCUT']
